@@ -537,6 +537,9 @@ func (b *Branch) Trim(height int) error {
 		return errors.New("Height Above Tip") // above tip
 	}
 
+	for _, data := range b.headers[offset:] {
+		delete(b.heightsMap, data.Hash)
+	}
 	b.headers = b.headers[:offset]
 	return nil
 }
